@@ -521,7 +521,7 @@ func confJSON(c mconf, version int) string {
 		ps = append(ps, fmt.Sprintf(`"%s":[%s]`, prodNames[p], strings.Join(rs, ",")))
 	}
 	js := fmt.Sprintf(`{"Version":"v%d","Config":{%s}}`, version, strings.Join(ps, ","))
-	if c.bad == "J" {
+	if c.bad == "J" || ((c.bad == "A" || c.bad == "M") && first) { // no rule to spoil: break the file itself
 		js = js[:len(js)-2]
 	}
 	return js
@@ -638,7 +638,9 @@ func runModule(rest string) (string, int64) {
 			if !ok {
 				return "bad-op", 0
 			}
-			version++
+			if version == 0 || strings.Contains(st, ".2.") { // mostly the SAME version string: a reload must not be skipped for that
+				version++
+			}
 			fh, err := os.CreateTemp("", "verif-c53-*.json")
 			if err != nil {
 				return "err:tmpfile", 0
